@@ -30,6 +30,9 @@ type sysFamily struct {
 	design  *designCheck
 	designT *designCheck // thorough tier (nil = same)
 	scen    []string     // directed scenarios that may precede the tail
+	// runs in which a monitor reports an open known finding the model does not have are not validated (they are
+	// reported; validating them only re-discovers the rejection at the price of a diagnosis run each)
+	skipKnown bool
 }
 
 type designCheck struct {
@@ -245,7 +248,7 @@ func runSysFamily(c *vf.Ctx, fam sysFamily, nTLC, nRand int) {
 				cfgString(d.cfg), d.kinds, d.maxRPC, d.maxStims, res.Generated, res.Distinct, res.Depth, res.Wall.Seconds(), d.invs)
 		}()
 	}
-	total, rejected, dropped := 0, 0, 0
+	total, rejected, dropped, skipped := 0, 0, 0, 0
 	scenUsed := map[string]int{}
 	for _, cfg := range fam.cfgs {
 		var prefixes [][]sys.Stim
@@ -298,16 +301,27 @@ func runSysFamily(c *vf.Ctx, fam sysFamily, nTLC, nRand int) {
 			if fam.post != nil {
 				fs = append(fs, fam.post(v, ts)...)
 			}
+			knownDefect := false
 			for _, f := range fs {
 				if own[f.Prop] {
+					if fam.skipKnown && c.IsKnown(f.Sig) {
+						knownDefect = true
+					}
 					c.Violation(f.Sig, map[string]any{"property": f.Prop, "config": cfgString(cfg), "at_line": f.At, "info": f.Info, "trace": traceDump(r, f.At)})
 				} else {
 					c.Warn("%s family: finding for %s: %s", fam.prop, f.Prop, f.Sig)
 				}
 			}
-			runs = append(runs, r)
 			b, _ := json.Marshal(r.Lines)
 			c.Eval(cfgString(cfg) + string(b))
+			if knownDefect {
+				// the run shows a recorded defect the model does not have: it is reported above; validating it would only
+				// reject it again (and cost a diagnosis run)
+				skipped++
+				total++
+				continue
+			}
+			runs = append(runs, r)
 		}
 		total += len(runs)
 		rej, val := sysValidate(c, cfg, runs, 8)
@@ -342,6 +356,9 @@ func runSysFamily(c *vf.Ctx, fam sysFamily, nTLC, nRand int) {
 	c.Cov["runs_recorded"] = total
 	c.Cov["runs_rejected_by_trace_validation"] = rejected
 	c.Cov["runs_not_quiescent_dropped"] = dropped
+	if skipped > 0 {
+		c.Cov["runs_showing_a_known_finding_not_validated"] = skipped
+	}
 	c.Cov["exhaustive"] = false
 	if os.Getenv("VERIF_DEBUG") != "" {
 		fmt.Fprintf(os.Stderr, "%s: runs=%d rejected=%d dropped=%d\n", fam.prop, total, rejected, dropped)
